@@ -218,7 +218,7 @@ FIELD_DT = ["?", "i1", "u2", "i4", "i8", "f4", "f8", "c16", "S3"]
 
 def gen_payload(r, cls, simple=True):
     if cls == "Array":
-        rank = r.randrange(1, 4)
+        rank = r.randrange(1, 4) if r.random() < 0.93 else 0          # now and then 0-dimensional data (shape ())
         rec = {"dtype": r.choice(DTYPES), "shape": [r.randrange(1, 4) for _ in range(rank)], "seed": r.randrange(10**6)}
         if r.random() < 0.3:
             rec["units"] = r.choice(["nm", "", "Å", "counts per pixel"])
